@@ -54,7 +54,10 @@ func (n *NonInterf) render(e ast.Expr, env niEnv) string {
 	case *ast.Ident:
 		if o := n.Info.Uses[x]; o != nil {
 			if s, ok := env.sub[o]; ok {
-				return "(" + s + ")"
+				if strings.ContainsAny(s, " +-*/<>=&|!") && !(strings.HasPrefix(s, "(") && strings.HasSuffix(s, ")")) {
+					return "(" + s + ")"
+				}
+				return s
 			}
 		}
 		return x.Name
@@ -270,3 +273,29 @@ func (n *NonInterf) Conflicts(idx []int, names []string) []string {
 }
 
 func (n *NonInterf) PathCount() int { return len(n.paths) }
+
+// NotAmong returns descriptions of paths on which result idx is syntactically none of the results in among.
+func (n *NonInterf) NotAmong(idx int, among []int, names []string) []string {
+	var out []string
+	seen := map[string]bool{}
+	for _, p := range n.paths {
+		if idx >= len(p.results) {
+			continue
+		}
+		ok := false
+		for _, a := range among {
+			if a < len(p.results) && p.results[a] == p.results[idx] {
+				ok = true
+			}
+		}
+		if !ok {
+			msg := fmt.Sprintf("%s is `%s`, which is neither %s", names[0], p.results[idx], strings.Join(names[1:], " nor "))
+			if !seen[msg] {
+				seen[msg] = true
+				out = append(out, msg)
+			}
+		}
+	}
+	sort.Strings(out)
+	return out
+}
